@@ -613,6 +613,7 @@ type cliOpt struct {
 	Formats    bool // also capture table and JSON v2
 	ExtraEnv   []string
 	FromSubdir bool
+	TableArgs  []string // arguments of the table run (default: -v)
 }
 
 type cliRun struct {
@@ -845,7 +846,11 @@ func (e *scanEnv) runCLI(sc cases.ScanCase, opt cliOpt) (*cliRun, error) {
 		for _, a := range sc.Args {
 			base = append(base, expandPlaceholders(a, r))
 		}
-		t := e.bin.Run(run.Opt{Dir: wd, Args: append([]string{"-v"}, base...), Home: dir})
+		targs := []string{"-v"}
+		if opt.TableArgs != nil {
+			targs = opt.TableArgs
+		}
+		t := e.bin.Run(run.Opt{Dir: wd, Args: append(append([]string{}, targs...), base...), Home: dir})
 		res.Table = string(t.Stdout)
 		j2 := e.bin.Run(run.Opt{Dir: wd, Args: append([]string{"--json", "--json-version=2", "-v"}, base...), Home: dir})
 		res.JSONv2 = string(j2.Stdout)
